@@ -1,3 +1,4 @@
+import AmVerif.Gen.Tables
 import AmVerif.Model.ReloaderFacts
 import AmVerif.Lemmas.Mailbox
 import AmVerif.Lemmas.MailboxRank
@@ -387,5 +388,11 @@ theorem C08_no_deadlock_today (g : Nat → Option (List Nat)) (isAsset : Nat →
   refine ⟨C08_no_deadlock _ hsafe (by simp [envToday, C08_cfg_waitNotifies]), fun n σ => ⟨?_, ?_⟩⟩
   · exact C08_never_aborts _ hov n σ
   · exact C08_thread_survives _ (by simp [envToday, C08_cfg_catchesPanic]) n σ
+
+/-- The crate's own `Condvar::wait_while` (wrapper over std / parking_lot in `utils/private.rs`) re-checks its
+condition after every wake-up in both lock implementations: `Answers` shares one condition variable between all
+`hot_reload` callers and the reloader and wakes with `notify_all`, so the model's "a waiter proceeds only when its
+own condition holds" is this fact. -/
+theorem C08_wait_while_rechecks : waitWhileRechecksStd = true ∧ waitWhileRechecksParkingLot = true := by decide
 
 end AmVerif.Props.C08
